@@ -451,17 +451,20 @@ func init() {
 	longRuns["c16_huge_string"] = func(n int) *evid.Violation {
 		// one string of n bytes read by BufferReader.ReadString over a bytes reader and over a stream reader;
 		// afterwards the input is overwritten and the reader's buffers go back to the pool and are reused
-		in := make([]byte, 4+n)
+		// the string is followed by an i64: exactly 4+n bytes must be consumed for it
+		in := make([]byte, 4+n+8)
 		in[0], in[1], in[2], in[3] = byte(n>>24), byte(n>>16), byte(n>>8), byte(n)
-		for i := 4; i < len(in); i += 4093 {
+		for i := 4; i < 4+n; i += 4093 {
 			in[i] = byte(i>>8) | 1
 		}
-		in[len(in)-1] = 0x5a
+		in[4+n-1] = 0x5a
+		copy(in[4+n:], []byte{1, 2, 3, 4, 5, 6, 7, 8})
+		const after = int64(0x0102030405060708)
 		check := func(s string, how string) *evid.Violation {
 			if len(s) != n {
 				return evid.Failf("%s of a %d-byte string returned %d bytes", how, n, len(s))
 			}
-			for i := 4; i < len(in); i += 4093 {
+			for i := 4; i < 4+n; i += 4093 {
 				if s[i-4] != byte(i>>8)|1 {
 					return evid.Failf("%s of a %d-byte string: after the input buffer was overwritten and the reader's buffers were reused, byte %d of the returned string reads %#x, want %#x", how, n, i-4, s[i-4], byte(i>>8)|1)
 				}
@@ -475,10 +478,15 @@ func init() {
 		rd := bufiox.NewBytesReader(cp)
 		r := thrift.NewBufferReader(rd)
 		s1, err := r.ReadString()
+		rn1 := r.Readn()
+		x1, e1 := r.ReadI64()
 		r.Recycle()
 		rd.Release(nil)
 		if err != nil {
 			return evid.Failf("BufferReader.ReadString (bytes reader) of a %d-byte string: %v", n, err)
+		}
+		if rn1 != int64(4+n) || e1 != nil || x1 != after {
+			return evid.Failf("BufferReader.ReadString (bytes reader) of a %d-byte string consumed %d bytes (want %d); the i64 behind it reads (%#x, %v), want %#x", n, rn1, 4+n, x1, e1, after)
 		}
 		for i := range cp {
 			cp[i] = 0xEE
@@ -489,10 +497,15 @@ func init() {
 		sr := bufiox.NewDefaultReader(faultio.NewScriptReader(in, faultio.Plan{Chunks: []int{1 << 20}, ErrAt: -1}))
 		r = thrift.NewBufferReader(sr)
 		s2, err := r.ReadString()
+		rn2 := r.Readn()
+		x2, e2 := r.ReadI64()
 		r.Recycle()
 		sr.Release(nil)
 		if err != nil {
 			return evid.Failf("BufferReader.ReadString (stream reader) of a %d-byte string: %v", n, err)
+		}
+		if rn2 != int64(4+n) || e2 != nil || x2 != after {
+			return evid.Failf("BufferReader.ReadString (stream reader) of a %d-byte string consumed %d bytes (want %d); the i64 behind it reads (%#x, %v), want %#x", n, rn2, 4+n, x2, e2, after)
 		}
 		// other pool users take and overwrite buffers of every large class
 		tn := tenantFor(n)
@@ -511,7 +524,7 @@ func TestC11_HugeExtra(t *testing.T) {
 }
 
 func TestC16_HugeString(t *testing.T) {
-	rec := evid.New("C16", "c16_huge_string", "one string of 2^27 + 1 bytes (thorough: 2^27 + 4097) read by BufferReader.ReadString over a bytes reader and over a stream reader; afterwards the input is overwritten, the readers are released and a co-tenant overwrites pool buffers of every class up to 4x the string; sampled bytes of the returned strings are compared")
+	rec := evid.New("C16", "c16_huge_string", "one string of 2^27 + 1 bytes (thorough: 2^27 + 4097) followed by an i64, read by BufferReader.ReadString over a bytes reader and over a stream reader (exactly 4+n bytes consumed, the i64 reads back); afterwards the input is overwritten, the readers are released and a co-tenant overwrites pool buffers of every class up to 4x the string; sampled bytes of the returned strings are compared")
 	defer rec.Flush()
 	runLong(t, rec, "c16_huge_string", evid.Pick(1<<27+1, 1<<27+4097))
 	rec.SetExhaustive()
